@@ -110,7 +110,7 @@ type Case struct {
 	// Siblings: other operations of the same description (their handlers must not run):
 	// "method" the same template under another method, any other string a template under the same method.
 	Siblings []string `json:"siblings,omitempty"`
-	Resp     Resp   `json:"resp"`
+	Resp     Resp     `json:"resp"`
 }
 
 // ---- rendering the supplied JSON members into Go values ----
@@ -503,6 +503,7 @@ type seen struct {
 	called  bool
 	code    int
 	headers map[string][]string
+	raw     []byte
 	body    any // decoded with the consumer the runtime selected
 	bodyErr string
 }
@@ -683,28 +684,31 @@ func execute(s *server, c *Case) (res result, herr error) {
 			sn.headers[h.K] = resp.GetHeaders(h.K)
 		}
 		sn.headers["Content-Type"] = resp.GetHeaders("Content-Type")
+		// the body is read once; the consumer the runtime selected then decodes those bytes
+		raw, err := io.ReadAll(resp.Body())
+		if err != nil {
+			sn.bodyErr = "reading the body: " + err.Error()
+		}
+		sn.raw = raw
+		body := bytes.NewReader(raw)
 		switch c.Resp.Kind {
 		case "none":
-			b, err := io.ReadAll(resp.Body())
-			if err != nil {
-				sn.bodyErr = err.Error()
-			}
-			sn.body = b
+			sn.body = raw
 		case "json", "jarray":
 			var v interface{}
-			if err := cons.Consume(resp.Body(), &v); err != nil {
+			if err := cons.Consume(body, &v); err != nil {
 				sn.bodyErr = err.Error()
 			}
 			sn.body = v
 		case "text":
 			var v string
-			if err := cons.Consume(resp.Body(), &v); err != nil {
+			if err := cons.Consume(body, &v); err != nil {
 				sn.bodyErr = err.Error()
 			}
 			sn.body = v
 		case "bytes":
 			var v bytes.Buffer
-			if err := cons.Consume(resp.Body(), &v); err != nil {
+			if err := cons.Consume(body, &v); err != nil {
 				sn.bodyErr = err.Error()
 			}
 			sn.body = v.Bytes()
@@ -757,7 +761,6 @@ func firstLine(b []byte) string {
 	}
 	return string(b)
 }
-
 
 // ownTempDir makes the process keep its temporary files (multipart spill) in a
 // directory of its own under /verif/.work; the returned function removes it.
